@@ -2,7 +2,7 @@
    KNOWN FINDING (defect D3, class TC): when a participant with own choices instructs a course the node scores are not upper
    bounds, and the score depends on the schedule (C03_refuted, two recorded histories replayed inside Coq). *)
 From Coq Require Import List ZArith Lia Bool Arith.
-Require Import HP1 Cao1 Cao3 Score1 Cov1 Rooms Spec Valid Node NodeThms NodeWf Solve D3Witness CorrSolve NoPanic RoomSites WfPres Mono3.
+Require Import HP1 Cao1 Cao3 Score1 Cov1 Rooms Spec Valid Node NodeThms NodeWf Solve D3Witness CorrSolve NoPanic RoomSites WfPres Mono3 NoOverflow.
 Require EngP2 EngExec Tree C01 C02 C08.
 Import ListNotations.
 Open Scope nat_scope.
@@ -98,8 +98,23 @@ Proof.
   split; [exact R2|]. split; [exact (EngExec.all_done_spec node assignment st2 D2)|]. rewrite S1, S2. discriminate.
 Qed.
 
-Check C03_engine. Check C03_noTC. Check C03_rooms_noTC. Check C03_refuted.
+(* the Overflow hypothesis discharged by the size bound SizeOK (HP7, NoOverflow) *)
+Theorem C03_sized : forall courses parts esize shrinkf rooms smin smax k1 st1 k2 st2,
+  Valid courses parts -> in_tc courses parts = false -> FloatSane courses esize shrinkf rooms -> SizeOK courses parts ->
+  (forall a, (score_of courses parts a <= smax)%Z) ->
+  SReach courses parts esize shrinkf rooms smin smax k1 st1 -> 0 < k1 -> C02.final st1 ->
+  SReach courses parts esize shrinkf rooms smin smax k2 st2 -> 0 < k2 -> C02.final st2 ->
+  (EngP2.best node assignment st1 = None <-> EngP2.best node assignment st2 = None) /\
+  (EngP2.best node assignment st1 <> None -> EngP2.bscore node assignment st1 = EngP2.bscore node assignment st2).
+Proof.
+  intros courses parts esize shrinkf rooms smin smax k1 st1 k2 st2 V Htc FS Hs.
+  apply (C03_rooms_noTC courses parts esize shrinkf rooms smin smax k1 st1 k2 st2 V Htc FS).
+  intros nd. apply (run_full_no_overflow courses parts V esize shrinkf rooms nd Hs).
+Qed.
+
+Check C03_engine. Check C03_noTC. Check C03_rooms_noTC. Check C03_sized. Check C03_refuted.
 Print Assumptions C03_engine.
 Print Assumptions C03_noTC.
 Print Assumptions C03_rooms_noTC.
+Print Assumptions C03_sized.
 Print Assumptions C03_refuted.
